@@ -29,10 +29,18 @@ CHECKS = {
    text="Seeded sequential-history refinement: random operation histories (set/update/delete/merge/rest/range/literal with duplicates/permuted rebuild) over per-run universes of 3..16 mixed-type keys are applied in lock-step to object.Map via the Go API, to a variable of a real grol session via source text, and to an association-list model; after every operation length, lookup of every key, iteration order, printed form, equality with a canonically built twin and immutability of + operands are compared. No faults apply (stated); sampled, not enumerated.",
    note="Cross-type key rank is learned from one canonical build per run (history independence rather than a hard-coded rank); int/float keys of equal value, NaN and -0 are left to C12.",
    tech="deterministic simulation harness used as seeded history search: sequential refinement of the real map implementation (API and language level) against a small executable reference model"),
+ "C13": dict(cat="exploration", ref="5.8",
+   text="Seeded sessions define macros (0..4 parameters, each unquoted 0..3 times in a quoted template from an expression grammar incl. called lambdas, if/else, arrays, map access) and use them 1..5 times in the same and later inputs, at top level, in functions, loops and as arguments of other macros, with side-effecting and loosely-binding arguments and failing inputs in between. The harness' textual-substitution model is parsed by the real parser and compared structurally with State.ExpandMacros' tree; the printed expansion (both modes) must re-parse and evaluate like the hand-substituted program; evaluation must match on a macro-free session; the first use's tree must be unchanged after later uses; nothing may be printed during expansion.",
+   note="Templates are single quoted integer expressions; the printer may regroup repeated associative operators (pinned by grol's tests), so the reprint oracle compares evaluation, not tree identity.",
+   tech="deterministic simulation: seeded multi-input sessions with injected failing inputs, refinement of macro expansion against an executable textual-substitution model"),
  "C14": dict(cat="exploration", ref="5.9",
    text="Seeded worlds in a scratch directory: globals of 19 generator-known value kinds (int extremes, every float class, strings over all bytes, nested containers with keys of every type, named functions and lambdas from the workload grammar) are bound, saved (save(), SaveGlobals, AutoSave), the interpreter restarted (fresh state), loaded (load() whole-file or AutoLoad line by line), observed as typed canonical trees, functions re-called on fixed arguments, and saved again, for up to 3 cycles under MaxValueLen in {0,10,100,4000}; faults: state file truncated at a random byte or one byte flipped between save and load, and a binding above bufio.Scanner's 64 KiB limit. Oracles: equal value and type, same function behaviour, one line per binding = reported count, byte-identical re-save, over-long values absent, damaged file never panics AutoLoad and every intact line is restored.",
    note="A restart is a fresh eval.State in the same OS process. Recorded findings (integral floats, -0, MinInt64, closures, two printer regroupings) are matched by value kind / fixed probe; generated function bodies avoid the two recorded printer regroupings.",
    tech="deterministic simulation: seeded save/restart/load histories on a real scratch file system with injected torn/flipped state files, checked against generator-known values"),
+ "C15": dict(cat="exploration", ref="5.10",
+   text="The simulator acts as the transport of source text and decides fragmentation: seeded scripts (multi-line statements, comments, macros before use) are (a) parsed in file and line mode and compared by a harness-side structural dump, (b) cut at every token boundary reported by the real lexer (plus positions inside strings/block comments): every prefix ending inside an open ( [ { string/comment or after a binary operator must yield a continuation request without errors, and line-by-line feeding through the REPL's prev+line accumulation must give the same statements, (c) delivered to a persistent session as one input and as every split into consecutive chunks (all 2^(n-1) for n<=7), optionally with failing inputs between chunks: same program output and final globals.",
+   note="Chunks are aligned with generator-known top-level statements, each terminated by ';' because grol continues a statement across a newline before ++/--; repl.Interactive's terminal loop is re-implemented (6 lines) around the real parser.",
+   tech="deterministic simulation: the simulator fragments the input stream (all cuts / all splits per script) and injects failing inputs; differential against whole-file delivery on the same real code"),
  "C18": dict(cat="fault_enumeration", ref="5.12",
    text="For each generated pair (previous state A, new state B; 0..200 bindings) a reference worker process performs the real AutoSave twice and reports the crash points passed; then every crash point (before/after CreateTemp, after each written binding, after the last write, before/after rename) is enumerated by a fresh worker that SIGKILLs itself there, and ./.gr must be byte-identical to file(A) or file(B); write failures are injected with RLIMIT_FSIZE at a stride of byte offsets (EFBIG from the kernel): AutoSave must report an error and leave file(A); unchanged state must not be saved at all.",
    note="Crash = process death (page cache survives); power loss / fsync ordering is out of scope as the property speaks of process death. The unwritable-directory fault is skipped when running as root.",
